@@ -240,8 +240,16 @@ func GenerateRoutes(
 		return err
 	}
 
-	err = os.WriteFile(args.OutputPath, []byte(formattedOutput), getOutputFileMod(args.OutputFilePerms))
+	// os.WriteFile applies the permissions only when it creates the file, so writing over the output of
+	// a previous run would silently keep the old mode. Write a sibling file and move it into place instead -
+	// the configured 'outputFilePerms' are honoured on every run and readers never see a half-written file.
+	tempOutputPath := args.OutputPath + ".tmp"
+	err = os.WriteFile(tempOutputPath, []byte(formattedOutput), getOutputFileMod(args.OutputFilePerms))
+	if err == nil {
+		err = os.Rename(tempOutputPath, args.OutputPath)
+	}
 	if err != nil {
+		os.Remove(tempOutputPath)
 		logger.Fatal("Could not write output file at '%s' with permissions '%v' - %v", args.OutputPath, args.OutputFilePerms, err)
 		return err
 	}
